@@ -29,13 +29,30 @@ class PathEnd(BaseException):
 
 
 class Modulus:
-    """the prime p as the code sees it: only usable as right operand of %"""
+    """the prime p as the code sees it: right operand of %, and a ring element == 0 in sums/differences"""
 
     def __repr__(self):
         return "p"
 
+    def __sub__(self, o):
+        return FE.of(self) - o
+
+    def __rsub__(self, o):
+        return FE.of(o) - FE.of(self)
+
+    def __add__(self, o):
+        return FE.of(self) + o
+
+    __radd__ = __add__
+
+    def __mul__(self, o):
+        return FE.of(self) * o
+
+    __rmul__ = __mul__
+
 
 P = Modulus()
+PSYM = sympy.Symbol("p_mod")       # the modulus as a ring element: == 0 (mod p)
 
 
 class FCtx:
@@ -89,6 +106,8 @@ class FE:
             return v
         if isinstance(v, int):
             return FE(v, reduced=(0 <= v < 3), rng=(Fraction(0), Fraction(0)) if v == 0 else None)
+        if v is P:
+            return FE(PSYM, False, (Fraction(1), Fraction(1)))
         raise TypeError("cannot use %r in field mode" % (v,))
 
     def _lin(self, o, f):
@@ -115,6 +134,8 @@ class FE:
         return FE(-self.e, False, None if self.rng is None else (-self.rng[1], -self.rng[0]))
 
     def __mul__(self, o):
+        if not isinstance(o, (int, FE)) and o is not P:
+            return NotImplemented         # e.g. scalar * point: the point's __rmul__ takes over
         if isinstance(o, int):
             rng = None
             if self.rng is not None:
@@ -143,6 +164,13 @@ class FE:
         e = expand(self.e)
         if e.is_Integer:
             return int(e) == 0        # small constants: p exceeds them
+        # already decided on this path (syntactically the same value)?
+        for known in c.eq:
+            if expand(known - e) == 0 or expand(known + e) == 0:
+                return True
+        for known in c.ne:
+            if expand(known - e) == 0 or expand(known + e) == 0:
+                return False
         cont, w = _content(e)
         safe = self.reduced
         if not safe and self.rng is not None and cont != 0:
@@ -182,6 +210,18 @@ class FE:
     def __ne__(self, o):
         return not self.__eq__(o)
 
+    # order comparisons exist only for the range checks "v < 1" and "v > p - 1" on reduced values
+    def __lt__(self, o):
+        if self.reduced and isinstance(o, int) and o == 1:
+            return self._is_zero()
+        raise TypeError("field mode: order comparison")
+
+    def __gt__(self, o):
+        o = FE.of(o)
+        if self.reduced and expand(o.e - (PSYM - 1)) == 0:
+            return False
+        raise TypeError("field mode: order comparison")
+
     __hash__ = None
 
     def __repr__(self):
@@ -200,6 +240,10 @@ def sym(name, reduced=True, signed=False):
 class Prover:
     def __init__(self, eqs, nes, gens):
         self.eqs = []
+        if any(PSYM in sympy.sympify(e).free_symbols for e in list(eqs) + list(nes)):
+            eqs = list(eqs) + [PSYM]
+            if PSYM not in gens:
+                gens = list(gens) + [PSYM]
         for e in eqs:
             e = expand(e)
             if e == 0:
